@@ -9,6 +9,15 @@ package influxql
 //@ globalinv ErrInvalidDuration != nil
 //@ globalinv errBadString != nil && errBadEscape != nil && errBadString != errBadEscape
 
+// AST well-formedness (G3): what the parser establishes for every node it
+// returns. Assumed for objects that exist when an operation on a parsed
+// statement starts.
+//@ typeinv SubQuery : self.Statement != nil
+//@ typeinv SelectStatement : len(self.Sources) >= 1 && len(self.Fields) >= 1 && (self.Target != nil ==> self.Target.Measurement != nil)
+//@ typeinv Target : self.Measurement != nil
+//@ typeinv ExplainStatement : self.Statement != nil
+//@ typeinv CreateContinuousQueryStatement : self.Source != nil && self.Source.Target != nil
+
 // ---------------------------------------------------------------- C03 tables
 
 //@ func (Token).Precedence
